@@ -115,6 +115,11 @@ func applyJSON(doc document.Document, entry interface{}) (result document.Docume
 	// apply the operations one at a time: the JSON patch library shares a copied node between source and
 	// destination, so later operations of the same patch would act on both (and could link a node into itself)
 	for _, op := range jsonPatches {
+		err = validateDestinationIndex(docBytes, op)
+		if err != nil {
+			return nil, err
+		}
+
 		docBytes, err = jsonpatch.Patch{op}.Apply(docBytes)
 		if err != nil {
 			return nil, err
@@ -122,6 +127,62 @@ func applyJSON(doc document.Document, entry interface{}) (result document.Docume
 	}
 
 	return document.FromBytes(docBytes)
+}
+
+// validateDestinationIndex refuses a copy or move whose destination is an array index beyond the end of the
+// array (RFC 6902: the index must not be greater than the number of elements): the JSON patch library would
+// allocate an array of that size, and an index chosen large enough ends the process with an out-of-memory
+// fatal error.
+func validateDestinationIndex(docBytes []byte, op map[string]*json.RawMessage) error {
+	var kind, path string
+
+	kindMsg, ok := op["op"]
+	if !ok || kindMsg == nil || json.Unmarshal(*kindMsg, &kind) != nil || (kind != "copy" && kind != "move") {
+		return nil
+	}
+
+	pathMsg, ok := op["path"]
+	if !ok || pathMsg == nil || json.Unmarshal(*pathMsg, &path) != nil || !strings.HasPrefix(path, "/") {
+		return nil
+	}
+
+	var node interface{}
+	if json.Unmarshal(docBytes, &node) != nil {
+		return nil
+	}
+
+	tokens := strings.Split(path[1:], "/")
+	for _, token := range tokens[:len(tokens)-1] {
+		switch container := node.(type) {
+		case map[string]interface{}:
+			node = container[strings.ReplaceAll(strings.ReplaceAll(token, "~1", "/"), "~0", "~")]
+		case []interface{}:
+			i, err := strconv.Atoi(token)
+			if err != nil {
+				return nil
+			}
+
+			if i < 0 {
+				i += len(container)
+			}
+
+			if i < 0 || i >= len(container) {
+				return nil
+			}
+
+			node = container[i]
+		default:
+			return nil
+		}
+	}
+
+	if array, ok := node.([]interface{}); ok {
+		if i, err := strconv.Atoi(tokens[len(tokens)-1]); err == nil && i > len(array) {
+			return fmt.Errorf("json patch: cannot %s to '%s': index is beyond the end of the array", kind, path)
+		}
+	}
+
+	return nil
 }
 
 // validateJSONPatchPointers refuses operations that move or copy a location into one of its own children:
